@@ -21,7 +21,10 @@ sys.path.insert(0, os.path.dirname(HERE))
 sys.dont_write_bytecode = True
 from pv import nf as N   # noqa
 
-SYMS = ['a', 'b', 'c', 'd']
+SYMS = ['a', 'b', 'c', 'd', 's', 't']     # s, t are *signed* (declared below); the others positive (assumption A4)
+SIGNED = ('s', 't')
+for _n in SIGNED:
+    N.declare_signed(_n)
 CONSTS = [Fraction(1), Fraction(2), Fraction(3), Fraction(1, 2), Fraction(5, 4), Fraction(-1), Fraction(7, 3),
           Fraction(1, 10), Fraction(12), Fraction(6)]
 POWS = [Fraction(2), Fraction(3), Fraction(-1), Fraction(1, 2), Fraction(-2), Fraction(1, 3), Fraction(6), Fraction(12),
@@ -239,14 +242,14 @@ def run(seed=0, n=400, use_sympy=False, depth=4):
                 for w in glob.glob('/opt/veriftools/wheels/' + pat):
                     sys.path.insert(0, w)
             import sympy as sp
-            S = {s: sp.Symbol(s, positive=True) for s in SYMS}
+            S = {s: (sp.Symbol(s, positive=True) if s not in SIGNED else sp.Symbol(s, real=True)) for s in SYMS}
         except Exception as e:   # pragma: no cover
             stats['sympy_unavailable'] = str(e)
             sp = None
     while stats['trees'] < n:
         t = gen(rng, depth)
         stats['trees'] += 1
-        envs = [{s: rng.uniform(0.3, 2.5) for s in SYMS} for _ in range(3)]
+        envs = [{s: (rng.uniform(0.3, 2.5) if s not in SIGNED else rng.choice([-1, 1]) * rng.uniform(0.3, 2.5)) for s in SYMS} for _ in range(3)]
         try:
             direct = [ev(t, e) for e in envs]
             if any(abs(v) > 1e12 for v in direct):
@@ -294,7 +297,7 @@ def run(seed=0, n=400, use_sympy=False, depth=4):
         if sp is not None and stats['sympy_agreed'] < 40 and rng.random() < 0.3:
             try:
                 e1, e2 = to_sympy(t, sp, S), to_sympy(t2, sp, S)
-                pt = {S[s]: sp.Rational(rng.randint(3, 25), 10) for s in SYMS}
+                pt = {S[s]: sp.Rational(rng.randint(3, 25), 10) * (1 if s not in SIGNED else rng.choice([-1, 1])) for s in SYMS}
                 v1, v2 = complex(sp.N(e1.subs(pt))), complex(sp.N(e2.subs(pt)))
                 same = abs(v1 - v2) <= 1e-7 * max(1, abs(v1))
                 if same != x.equals(x2) and same:
